@@ -218,6 +218,10 @@ def body_shape(body, callee):
     stmts = [x.strip() for x in split_top(body, ";")]
     if not stmts:
         return 99
+    # a block statement needs no `;`: control flow at the top level of a wrapper (an early return, a branch, a loop)
+    # is never part of "take the lock; forward"
+    if any(re.match(r"^(if|match|for|while|loop|return|unsafe)\b", st) for st in stmts):
+        return 99
     n = len(stmts)
     last = stmts[-1]
     m = re.match(r"^Ok\s*\((.*)\?\s*\)$", last, flags=re.S)
